@@ -106,7 +106,9 @@ ALPHABETS = {
     "latin-1": [chr(c) for c in list(range(0x20, 0x7f)) + list(range(0xa0, 0x100)) + [0, 1, 9, 0x7f, 0x80, 0x9f] + CTRL + [0x85]],
     "ascii": [chr(c) for c in list(range(0x20, 0x7f)) + [0, 1, 9, 0x7f] + CTRL],
     "utf-8": [chr(c) for c in list(range(0x20, 0x7f)) + [0xe9, 0x3b1, 0x416, 0x20ac, 0x4e2d, 0x1f600, 0x80, 0x7ff, 0x800, 0xffff]
-              + CTRL + [0x85, 0x2028]],
+              + CTRL + [0x85, 0x2028]
+              # legal text that is not in a Unicode normal form: OHM SIGN, ANGSTROM SIGN, combining marks, a ligature
+              + [0x2126, 0x212b, 0x301, 0x344, 0x1e9b, 0xfb01, 0x3a9]],
     "cp1251": [chr(c) for c in list(range(0x20, 0x7f)) + list(range(0x410, 0x450)) + [0x401, 0x451, 0x20ac, 0xa0, 0xb5] + CTRL],
 }
 
@@ -152,6 +154,31 @@ def canonical_record(rng, enc, nfields=None):
 
 def canonical_records(rng, enc):
     return [canonical_record(rng, enc) for _ in range(rng.choice([1, 1, 2, 3]))]
+
+
+UNENCODABLE = {"latin-1": "\u20ac", "ascii": "\xe9", "cp1251": "\xe9", "utf-8": "\ud800"}
+
+
+def failing_encode(rng, enc):
+    """an encode call that is refused part-way (a text the encoding cannot represent after some fields were already
+    written); whatever it leaves behind must not leak into later calls"""
+    from senaite.astm import codec
+    rec = ["R", "2", [None, None, "CREA"], "88", UNENCODABLE[enc], "tail"]
+    for fn in (lambda: codec.encode_record(rec, enc), lambda: codec.encode_message(2, [["H"], rec], enc),
+               lambda: codec.encode([rec], enc)):
+        if rng.random() < 0.6:
+            try:
+                fn()
+            except Exception:
+                pass
+
+
+def encodable_in(records, enc):
+    try:
+        "".join(leaf_chars(f) for r in records for f in r).encode(enc)
+        return True
+    except Exception:
+        return False
 
 
 def no_framing(x):
